@@ -60,6 +60,9 @@ pub(crate) struct Ghost {
     /// A-UNWIND: number of emulated panics started / caught by the harness' emulated catch_unwind
     pub panics: u16,
     pub caught: u16,
+    /// H5: when set by a harness, the crate's own counter-limit panics are emulated (flag + return)
+    /// instead of aborting the path, so the state AFTER unwinding out of them can be specified
+    pub emulate_limit_panics: bool,
     pub upgrade_gave_dropped: u16,
     pub new_in_finalizer_not_marked_finalized: u16,
     pub trace_after_drop: u16,
@@ -111,6 +114,7 @@ impl Ghost {
             fault_fired: false,
             panics: 0,
             caught: 0,
+            emulate_limit_panics: false,
             upgrade_gave_dropped: 0,
             new_in_finalizer_not_marked_finalized: 0,
             trace_after_drop: 0,
@@ -159,6 +163,20 @@ pub(crate) fn catch() -> bool {
         let u = G.panics > G.caught;
         G.caught = G.panics;
         u
+    }
+}
+
+/// H5 hook protocol at the crate's own limit panics:
+/// `if limit_panic() { return <poison>; } panic!(..)` — off by default (the real `panic!` runs and ends the path).
+#[inline]
+pub(crate) fn limit_panic() -> bool {
+    unsafe {
+        if G.emulate_limit_panics {
+            G.panics += 1;
+            true
+        } else {
+            false
+        }
     }
 }
 
